@@ -409,11 +409,17 @@ def oracle(op, operands, obs):
     if op["op"] in ("split", "split_list", "split_with_sizes", "tensor_split_n", "tensor_split_idx") and isinstance(operands[0], Tensor) \
             and operands[0].ndim and operands[0].shape[0] == 0:
         name = "split-of-empty-batch"
+    if "error" in obs and obs.get("exc") == "ValueError" and "nchannels" in obs.get("msg", "") and isinstance(operands[0], FlowFields) \
+            and operands[0].shape[0] == 0:
+        name = "channel-change-of-empty-batch"
     key = lambda kind: f"C19:{site}:{name}:{kind}"  # noqa
     out = []
     descs_in = [describe(x) for x in operands]
     typed_in = [d["kind"] in ("B", "F", "I", "FI") for d in descs_in]
     if "error" in obs:
+        flow_axes = {d.get("axes") for d in descs_in if d["kind"] in ("F", "FI")}
+        if obs["exc"] == "ValueError" and "mismatching axes" in obs["msg"] and len(flow_axes) > 1:
+            return out      # combining flow fields with different axes is refused on purpose
         if any(typed_in) and obs.get("plain_ok") and op["op"] not in ("grid_sample",):
             out.append((key("raises-" + obs["exc"]), f"raises {obs['exc']} ({obs['msg'][:80]}) although the operation succeeds on the plain data"))
         elif op["op"] in ("copy", "iter_build", "iter_pick", "append", "to_batch", "narrow_method", "sample_grid") and obs["exc"] not in ("IndexError", "RuntimeError"):
@@ -464,6 +470,11 @@ def oracle(op, operands, obs):
                 else:
                     cands.add(gl[0])
             g = d["grids"][i] if batched else d["grids"][0]
+            if not batched:
+                # an operand without elements (zero channels) contributes no data but may lend its grid
+                for j, dj in enumerate(descs_in):
+                    if typed_in[j] and dj["kind"] in ("I", "FI") and 0 in dj["shape"]:
+                        cands.add(dj["grids"][0])
             if g not in cands:
                 out.append((key("grid-of-other-item"), f"entry {i} holds the data of input item(s) with grid(s) {sorted(cands)} but carries grid {g}"))
                 break
